@@ -304,7 +304,9 @@ class Gen:
         base_t = tup(base_name, base_fields)
         via_var = r.random() < 0.5
         # what the added fields see as `~`: the spread base (flow form) / the binding's Ok (var form)
-        fflow = None if via_var else base_t
+        # (the real compiler rejects `~.field` inside a tuple with a bare `...`: FeatureUnsupported,
+        # so the added fields of the flow form do not refer to the flow either)
+        fflow = None
         extras = [(l + ": " if l else "") + self.expr(ft, env, fflow, depth + 1) for l, ft in rest]
         labelled = [(l, ft) for l, ft in base_fields if l]
         if labelled and r.random() < 0.5:
@@ -343,7 +345,7 @@ class Gen:
         return '"' + "".join(parts) + '"'
 
     # ------------------------------------------------------------------ patterns
-    def pattern(self, t, env_out, succeed, depth=0, pins=()):
+    def pattern(self, t, env_out, succeed, depth=0, pins=(), star=True):
         """a pattern for values of type t; appends (binder, type) to env_out.  `succeed`: must
         match every value of the type (irrefutable) when True; otherwise it may fail."""
         r = self.rng
@@ -387,18 +389,18 @@ class Gen:
                 if r.random() < 0.5:
                     env_out.append((l, ft)); parts.append(l)
                 else:
-                    parts.append(l + ": " + self.pattern(ft, env_out, succeed, depth + 1, pins))
+                    parts.append(l + ": " + self.pattern(ft, env_out, succeed, depth + 1, pins, star))
             name = t[1] if (t[1] and r.random() < 0.6) else ""
             self.note("partial_pattern")
             return name + "(" + ", ".join(parts) + ")"
-        if all(labels) and len(set(labels)) == len(labels) and t[2] and k < 0.55:
+        if star and all(labels) and len(set(labels)) == len(labels) and t[2] and k < 0.55:
             for l, ft in t[2]:
                 env_out.append((l, ft))
             self.note("star_pattern")
             return (t[1] if (t[1] and r.random() < 0.5) else "") + "*"
         if t[1] and not t[2]:
             return t[1]
-        parts = [(l + ": " if l else "") + self.pattern(ft, env_out, succeed, depth + 1, pins) for l, ft in t[2]]
+        parts = [(l + ": " if l else "") + self.pattern(ft, env_out, succeed, depth + 1, pins, star) for l, ft in t[2]]
         return (t[1] or "") + "[" + ", ".join(parts) + "]"
 
     # ------------------------------------------------------------------ blocks
@@ -485,7 +487,9 @@ class Gen:
         r = self.rng
         st = self.rand_tuple_type() if r.random() < 0.7 else self.rand_scalar()
         bound = []
-        pat = self.pattern(st, bound, succeed=False, pins=self.scalar_vars(env))
+        # no `*` here: which names a star binds depends on the value, so the evaluator cannot
+        # nil-fill them after a failure (reading R3 covers the static binders only)
+        pat = self.pattern(st, bound, succeed=False, pins=self.scalar_vars(env), star=False)
         v = self.expr(st, env, None, depth + 1)
         others = [x for x, t in self.lookup_latest(env) if not (isinstance(t, tuple) and t[0] == "fn")]
         names = []
@@ -578,7 +582,7 @@ class Gen:
             elif k < 0.72:
                 f, ft, src = self.loop_fn(env)
                 steps.append(src)
-                env.insert(0, (f, ft))
+                # not entered into `env`: the loop is only ever called with the small counts below
                 arg_acc = self.lit(ft[1][2][1][1])
                 observed.append("[%d, %s] %s" % (r.choice([0, 1, 3, 7, 40]), arg_acc, f))
             elif k < 0.8:
